@@ -125,6 +125,9 @@ inductive Call where
   /-- the operator deletes an orphaned `.tantivy-writer.lock` by hand (what the documentation of
       `INDEX_WRITER_LOCK` tells users to do) -/
   | removeLock
+  /-- `wait_merging_threads(self)`: consumes the writer like a drop, but joins the workers first and
+      returns their error -/
+  | waitMerges
   deriving DecidableEq, Repr
 
 inductive Res where
@@ -153,8 +156,15 @@ def dead (s : St) (w : Writer) : List Nat := s.managed.filter (fun x => !(living
 /-- `ManagedDirectory::garbage_collect`. Returns the GC call's result. -/
 def gcRun (f : Plan) (s : St) (w : Writer) : St × Res :=
   if f .gcLock then (s, .err)
-  else if (dead s w).isEmpty then (s, .ok)
-  else if f .gcDelete then (s, .ok)              -- every delete failed: nothing changes, files stay managed
+  -- nothing to delete — unless a delete / rewrite phase was observed to fail: the model's garbage
+  -- under-approximates the real one (workers close segments when the writer is dropped or waited
+  -- for), and a phase that failed is a phase that ran
+  else if (dead s w).isEmpty && !f .gcDelete && !f .gcManaged then (s, .ok)
+  -- failing deletes: the files stay, and stay managed. (One abstract delete phase: when, in the
+  -- same call, the rewrite of `.managed.json` fails too, some deletes had succeeded before the
+  -- faults began, the rewrite was attempted and its error is the GC's result; the model keeps
+  -- the files, which only over-approximates the unreferenced garbage.)
+  else if f .gcDelete then (s, if f .gcManaged then .err else .ok)
   else ({ s with files := s.files.filter (fun x => !(dead s w).contains x),
                  managed := s.managed.filter (fun x => !(dead s w).contains x) },
         if f .gcManaged then .err else .ok)
@@ -264,6 +274,11 @@ def call (sy : Bool) (cap : Nat) (f : Plan) (s : St) : Call → St × Res
   | .reload =>
     if f .reload then (s, .err) else ({ s with searcher := s.metaSegs }, .ok)
   | .removeLock => (if stale s then { s with lockFile := false } else s, .ok)
+  | .waitMerges =>
+    match s.writer with
+    | none => (s, .ok)
+    | some w => (if w.guard then releaseLock f { s with writer := none } else { s with writer := none },
+                 if w.workers && (w.workerErr || (!w.queue.isEmpty && f .worker)) then .err else .ok)
 
 def run (sy : Bool) (cap : Nat) (F : Nat → Plan) (i : Nat) (s : St) : List Call → St × List Res
   | [] => (s, [])
